@@ -9,6 +9,9 @@ chemicals in another order); splitting yields `split*feed` and `feed - split*fee
 stream back out of a mixture restores the remainder; copying with removal neither duplicates nor
 loses material; multiplying a stream by `k` multiplies every flow by `k`.
 
+Both `energy_balance=False` and the library default `energy_balance=True` are covered (`mixE`, `sumNewE`, `split … eb`);
+`vle=True` and `conserve_phases=True` are not modelled.
+
 The model is `ThermoVerif.Flow` (Model/Flow.lean); the proofs are in Lemmas/Flow.lean and
 Lemmas/FlowOps.lean.  `World.amount w i c` is the flow of chemical `c` (a CAS stand-in) in stream `i`,
 summed over its phases, `0` when the stream's package lacks `c`.  An operation of the code that can
@@ -48,6 +51,25 @@ theorem sum_total {w w' : World} {pkg : Nat} {ins : List Nat} (h : sumNew w pkg 
     w'.amount w.strms.length c = rsum (ins.map (fun i => w.amount i c)) :=
   FlowOps.sum_total h hins c
 
+/-- **Mixing with the library default `energy_balance=True`.**  Exactly one non-empty inlet is then copied with
+`copy_like` (the receiver takes over its phase tuple, or is emptied, expanded and refilled) instead of mixed;
+otherwise the same indexer mix runs and the enthalpy bookkeeping leaves the material alone.  Either way the
+receiver holds the sum of the inlets.  (`ValidPh`: phase letters are among `s l g S L`.) -/
+theorem mixE_total {w w' : World} {r : Nat} {ins : List Nat} {eb : Bool} (h : mixE w r ins eb = .ok w')
+    (hv : ∀ s ∈ w.strms, ValidPh s) (c : Nat) :
+    w'.amount r c = rsum (ins.map (fun i => w.amount i c)) :=
+  FlowOps.mixE_total h hv c
+
+/-- `Stream.sum`, `a + b` with the default energy balance -/
+theorem sumE_total {w w' : World} {pkg : Nat} {ins : List Nat} {eb : Bool} (h : sumNewE w pkg ins eb = .ok w')
+    (hins : ∀ i ∈ ins, i < w.strms.length) (hv : ∀ s ∈ w.strms, ValidPh s) (c : Nat) :
+    w'.amount w.strms.length c = rsum (ins.map (fun i => w.amount i c)) :=
+  FlowOps.sumE_total h hins hv c
+
+/-- the g ↔ l relabelling done by the enthalpy setter (taken from the code as a parameter) moves no material -/
+theorem flipPhase_amount (w : World) (i : Nat) (p : Char) (j c : Nat) : (flipPhase w i p).amount j c = w.amount j c :=
+  FlowOps.flipPhase_amount w i p j c
+
 /-- **The error branch of mixing.**  With valid stream indices, packages that list no chemical twice
 and non-negative inlets, `mix_from` raises exactly when some inlet holds a chemical that the
 receiver's package lacks. -/
@@ -66,16 +88,17 @@ theorem mix_error_kind {w : World} {r : Nat} {ins : List Nat} {e : Err} (hr : r 
 
 /-- **Splitting yields `split*feed` and `feed - split*feed`.**  Scalar or per-chemical split, single-
 or multi-phase feed and outlets, outlets on other packages, the feed itself as one of the outlets:
-if `split_to` returns (and the two outlets are different streams) every chemical is divided exactly so.
+if `split_to` returns (and the two outlets are different streams) every chemical is divided exactly so — with or
+without the energy balance (`eb`: outlets take the feed's phase, a multi-phase feed makes both outlets multi-phase).
 `splitAt w f sp c` is the scalar, or the entry of the split vector at the position of `c` in the feed's package. -/
-theorem split_values {w w' : World} {f a b : Nat} {sp : Split} (h : split w f a b sp = .ok w')
+theorem split_values {w w' : World} {f a b : Nat} {sp : Split} {eb : Bool} (h : split w f a b sp eb = .ok w')
     (hab : a ≠ b) (c : Nat) :
     w'.amount a c = w.amount f c * splitAt w f sp c ∧
     w'.amount b c = w.amount f c - w.amount f c * splitAt w f sp c :=
   FlowOps.split_values h hab c
 
 /-- the two outlets together hold exactly the feed -/
-theorem split_sum {w w' : World} {f a b : Nat} {sp : Split} (h : split w f a b sp = .ok w')
+theorem split_sum {w w' : World} {f a b : Nat} {sp : Split} {eb : Bool} (h : split w f a b sp eb = .ok w')
     (hab : a ≠ b) (c : Nat) : w'.amount a c + w'.amount b c = w.amount f c :=
   FlowOps.split_sum h hab c
 
@@ -111,10 +134,10 @@ theorem sepR_total {w w' : World} {x : Nat} {y : Ref} (h : sepR w x y = .ok w') 
 
 /-- **Mixing with phase views among the inlets** (also views of the receiver itself): the receiver holds
 the sum of what the operands held. -/
-theorem mixR_total {w w' : World} {r : Nat} {ins : List Ref} (h : mixR w r ins = .ok w')
-    (hr : r < w.strms.length) (c : Nat) :
+theorem mixR_total {w w' : World} {r : Nat} {ins : List Ref} {eb : Bool} (h : mixR w r ins eb = .ok w')
+    (hr : r < w.strms.length) (hv : ∀ s ∈ w.strms, ValidPh s) (hl : ins.all refValidLetter = true) (c : Nat) :
     w'.amount r c = rsum (ins.map (fun x => refAmount w x c)) :=
-  FlowOps.mixR_total h hr c
+  FlowOps.mixR_total h hr hv hl c
 
 /-! ### copy with removal -/
 
@@ -128,6 +151,15 @@ theorem copy_remove_moves {w w' : World} {d s : Nat} {ids : IDs} {ex : Bool} {ss
     (w'.amount d c = w.amount s c ∧ w'.amount s c = 0) ∨
     (w'.amount d c = w.amount d c ∧ w'.amount s c = w.amount s c) :=
   FlowOps.copy_remove_moves h hds hs hQ c
+
+/-- **Which chemicals are moved**: exactly the ones the caller asks for.  `wanted Q ids ex c` is "`c` is named by
+`IDs`" (every chemical for `...`), or with `exclude` "`c` is a chemical of the source that is not named". -/
+theorem copy_remove_selected {w w' : World} {d s : Nat} {ids : IDs} {ex : Bool} {ss : Strm}
+    (h : copySingle w d s ids true ex = .ok w') (hds : d ≠ s)
+    (hs : w.strms[s]? = some ss) (hQ : (w.pkgOf ss).Nodup) (c : Nat) :
+    if wanted (w.pkgOf ss) ids ex c then w'.amount d c = w.amount s c ∧ w'.amount s c = 0
+    else w'.amount d c = w.amount d c ∧ w'.amount s c = w.amount s c :=
+  FlowOps.copy_remove_selected h hds hs hQ c
 
 /-- cut and paste (`IDs = ...`): every chemical is moved -/
 theorem copy_all_moves {w w' : World} {d s : Nat} (h : copySingle w d s .all true false = .ok w')
@@ -184,6 +216,23 @@ theorem copy_multi_remove_moves {w w' : World} {d s : Nat} {ids : IDs} {ex : Boo
     (w'.amount d c = 0 ∧ w'.amount s c = w.amount s c) :=
   FlowOps.copy_multi_remove_moves h hds hd hs he c
 
+/-- … and which ones: the chemicals named by `IDs` (with `exclude`: the others). -/
+theorem copy_multi_remove_selected {w w' : World} {d s : Nat} {ids : IDs} {ex : Bool}
+    {sd ss : Strm} (h : copyMulti w d s none ids true ex = .ok w') (hds : d ≠ s)
+    (hd : w.strms[d]? = some sd) (hs : w.strms[s]? = some ss) (he : sd.isEmpty = true) (c : Nat) :
+    if (pos (w.pkgOf sd) c).isSome && (idsHas ids c != ex) then w'.amount d c = w.amount s c ∧ w'.amount s c = 0
+    else w'.amount d c = 0 ∧ w'.amount s c = w.amount s c :=
+  FlowOps.copy_multi_remove_selected h hds hd hs he c
+
+/-- **The destination's own content** when a single-phase stream is copied onto a multi-phase destination without
+`exclude`: it is discarded (`data[:] = 0.`, all phases); the destination then holds exactly the selected chemicals
+of the source. -/
+theorem copy_multi_single_source_overwrites {w w' : World} {d s : Nat} {ids : IDs} {rm : Bool} {sd ss : Strm}
+    (h : copyMulti w d s none ids rm false = .ok w') (hds : d ≠ s)
+    (hd : w.strms[d]? = some sd) (hs : w.strms[s]? = some ss) (hsingle : ss.multi = false) (c : Nat) :
+    w'.amount d c = if (pos (w.pkgOf sd) c).isSome && idsHas ids c then w.amount s c else 0 :=
+  FlowOps.copy_multi_single_source_overwrites h hds hd hs hsingle c
+
 /-- destination `(g, l)`, a source `(g, l, s)` with another phase tuple, a single-phase gas stream, a
 source with the destination's phase tuple -/
 def wCopy : World :=
@@ -229,11 +278,11 @@ example : PkgsNodup w0 := by
 -- the error branch: stream 0 holds ethanol (1), which package 1 = [5, 0, 2] lacks
 example : errOf (mix w0 1 [0]) = some .undefinedChemical := by decide +kernel
 -- splitting the multi-package mixture with a per-chemical split
-example : okAmount (split w0 4 3 5 (.vector [1/2, 1/4, 0, 0, 0, 1])) 3 1 = some 2 := by decide +kernel
-example : okAmount (split w0 4 3 5 (.vector [1/2, 1/4, 0, 0, 0, 1])) 5 1 = some 6 := by decide +kernel
+example : okAmount (split w0 4 3 5 (.vector [1/2, 1/4, 0, 0, 0, 1]) false) 3 1 = some 2 := by decide +kernel
+example : okAmount (split w0 4 3 5 (.vector [1/2, 1/4, 0, 0, 0, 1]) false) 5 1 = some 6 := by decide +kernel
 -- multi-phase feed onto a multi-phase outlet on another package
-example : okAmount (split w0 0 6 3 (.scalar (1/4))) 6 0 = some (1/4) := by decide +kernel
-example : okAmount (split w0 0 6 3 (.scalar (1/4))) 3 1 = some (3/8) := by decide +kernel
+example : okAmount (split w0 0 6 3 (.scalar (1/4)) false) 6 0 = some (1/4) := by decide +kernel
+example : okAmount (split w0 0 6 3 (.scalar (1/4)) false) 3 1 = some (3/8) := by decide +kernel
 -- separating: mix then separate
 example : (do let w1 ← mix w0 3 [4, 1]; let w2 ← sep w1 3 1; pure (w2.amount 3 0)) = Except.ok (8 : Rat) := by
   decide +kernel
@@ -247,11 +296,22 @@ example : okAmount (scale w0 2 (3/2)) 2 0 = some (9/4) := by decide +kernel
 example : okAmount (sepR w0 0 (.view 0 'g')) 0 0 = some 0 ∧ okAmount (sepR w0 0 (.view 0 'g')) 0 1 = some (1/2) := by
   decide +kernel
 -- the receiver's own liquid phase and another stream's solid phase among the inlets
-example : okAmount (mixR w0 0 [.view 0 'l', .view 2 's', .strm 0]) 0 1 = some 1 ∧
-          okAmount (mixR w0 0 [.view 0 'l', .view 2 's', .strm 0]) 0 0 = some (5/2) := by decide +kernel
+example : okAmount (mixR w0 0 [.view 0 'l', .view 2 's', .strm 0] false) 0 1 = some 1 ∧
+          okAmount (mixR w0 0 [.view 0 'l', .view 2 's', .strm 0] false) 0 0 = some (5/2) := by decide +kernel
+-- the default energy balance: one non-empty inlet (stream 2, package 2, phases l/s) is copied onto single-phase stream 3
+example : okAmount (mixE w0 3 [2, 3] true) 3 0 = some (3/2) ∧ okAmount (mixE w0 3 [2, 3] true) 3 3 = some 1 := by
+  decide +kernel
+example : ∀ s ∈ w0.strms, ValidPh s := by
+  intro s hs
+  simp only [w0, List.mem_cons, List.not_mem_nil, or_false] at hs
+  rcases hs with rfl | rfl | rfl | rfl | rfl | rfl | rfl <;> intro pr hpr <;> simp at hpr <;>
+    (try rcases hpr with rfl | rfl) <;> (try subst hpr) <;> rfl
+-- a multi-phase feed split with the energy balance: both outlets become multi-phase
+example : okAmount (split w0 0 3 5 (.scalar (1/4)) true) 3 0 = some (1/4) ∧
+          okAmount (split w0 0 3 5 (.scalar (1/4)) true) 5 1 = some (3/8) := by decide +kernel
 -- a single-phase feed onto a multi-phase outlet (C01-9): the outlet becomes single-phase at the feed's phase
-example : okAmount (split w0 4 0 3 (.scalar (1/4))) 0 0 = some 2 ∧
-          okAmount (split w0 4 0 3 (.scalar (1/4))) 3 0 = some 6 := by decide +kernel
+example : okAmount (split w0 4 0 3 (.scalar (1/4)) false) 0 0 = some 2 ∧
+          okAmount (split w0 4 0 3 (.scalar (1/4)) false) 3 0 = some 6 := by decide +kernel
 -- `exclude=True` with IDs the source does not have copies everything (C01-10); a string ID across packages (C01-11)
 example : okAmount (copySingle w0 3 1 (.many [1]) true true) 3 2 = some 4 ∧
           okAmount (copySingle w0 3 1 (.many [1]) true true) 1 2 = some 0 := by decide +kernel
